@@ -503,5 +503,12 @@ pub fn random_settings(rng: &mut StdRng, sym: bool) -> serde_json::Value {
         s.insert("static_regularization_constant".into(), json!([1e-7, 1e-9][rng.gen_range(0..2)]));
         s.insert("dynamic_regularization_eps".into(), json!([1e-12, 1e-14][rng.gen_range(0..2)]));
     }
+    // the backtracking line search of the nonsymmetric cones: slow (many probes) and coarse back-off factors, short floors
+    if !sym && rng.gen::<f64>() < 0.25 {
+        s.insert("linesearch_backtrack_step".into(), json!([0.5, 0.95, 0.99][rng.gen_range(0..3)]));
+        if rng.gen::<f64>() < 0.5 {
+            s.insert("min_terminate_step_length".into(), json!([1e-6, 1e-2][rng.gen_range(0..2)]));
+        }
+    }
     serde_json::Value::Object(s)
 }
